@@ -1,4 +1,5 @@
 """Registry of obligations per property (see DESIGN.md section 4)."""
+import os
 from run import Ob
 
 OBLIGATIONS = {}
@@ -259,17 +260,42 @@ OBLIGATIONS['C01'] = OBLIGATIONS['C01'] + [o for o in OBLIGATIONS['C19'] if o.na
 
 # ----------------------------------------------------------------------------- C16 / C15 (object file protocol)
 OBJFILE_REAL = ['object_store/ObjectFile.cpp', 'object_store/File.cpp', 'object_store/Generation.cpp', 'object_store/OSAttribute.cpp', 'data_mgr/ByteString.cpp']
-OBJFILE_TIERS = ()   # not finished within the budgets yet: kept out of the registered tiers (see DESIGN.md)
+OBJFILE_TIERS = ('thorough',)   # default tier of an object-file obligation; the quick subsets are chosen below
 def _of(op, name, desc, **kw):
-    return Ob('objfile_' + name, 'C16/objfile.cpp', OBJFILE_REAL, defines={'OP': op, 'BS_CAP': 8, 'FCAP': 88, 'NFILES': 2, 'NSTREAMS': 4, 'VSTL_CAP': 3}, unwind=10, caps='C16/caps.h',
-              unwind_rules=[(r'^harness|vio_freeze', 100), (r'basic_string|char_traits|strlen|memcpy|ir_mem', 12)], desc=desc,
+    return Ob('objfile_' + name, 'C16/objfile.cpp', OBJFILE_REAL, defines={'OP': op, 'BS_CAP': 12, 'FCAP': 88, 'NFILES': 2, 'NSTREAMS': 4, 'VSTL_CAP': 3}, unwind=10, caps='C16/caps.h',
+              unwind_rules=[(r'vio_freeze', 200), (r'^harness', 100), (r'basic_string|char_traits|strlen|memcpy|ir_mem', 12)], desc=desc,
+              flags=['--max-field-sensitivity-array-size', '128'],   # the 88-byte model file stays field-sensitive: concrete file bytes propagate
+
               bounds='object with three attributes (bool, 2-byte string, 1-element mechanism set): shape concrete, values symbolic; file <= 88 bytes', timeout=900, mem=16, tiers=OBJFILE_TIERS, **kw)
-_C16 = [
-    _of(3, 'loader_cut', 'ObjectFile loader (refresh) on the complete 83-byte object file cut at EVERY length 0..83: a cut inside a record body is rejected; boundary cuts are known findings'),
-    _of(1, 'crash', 'crash at every file operation of ObjectFile::setAttribute (rewrite in place) with every prefix of the data in flight, then recovery by a fresh ObjectFile: valid => old or new state'),
-]
+_QUICK_CUTS = (0, 5, 8, 12, 20, 24, 25, 30, 40, 49, 50, 51, 56, 64, 70, 78, 82, 83)
+def _cut(c):
+    o = _of(3, 'loader_cut_%d' % c, 'ObjectFile loader (refresh) on the complete 83-byte object file (bool, 2-byte string, mechanism set) cut at length %d: a cut inside a record body must be rejected; a cut at a record boundary / inside a type field must not yield a valid object with attributes missing' % c)
+    o.defines['CUT'] = c
+    if OBJFILE_TIERS: o.tiers = ('quick', 'thorough') if c in _QUICK_CUTS else ('thorough',)
+    return o
+OBJFILE_NOPS = 24    # file operations of one ObjectFile::setAttribute (asserted by every crash / fault obligation)
+def _crash(at):
+    o = _of(1, 'crash_at_%d' % at, 'crash at file operation %d of ObjectFile::setAttribute (rewrite in place) with every prefix of the data in flight: the disk holds the complete old file or a prefix of the new file, nothing else; C16 demands old or complete new' % at)
+    o.defines['VIO_AT'] = at; o.defines['NOPS'] = OBJFILE_NOPS
+    if at in (0, 7, 8, 13, 19, 20, 23): o.tiers = ('quick', 'thorough')
+    return o
+def _fault(at):
+    o = _of(2, 'fault_at_%d' % at, 'file operation %d of ObjectFile::setAttribute fails: success is only reported when the new value is on the (model) disk and flushed' % at)
+    o.defines['VIO_AT'] = at; o.defines['NOPS'] = OBJFILE_NOPS
+    if at in (0, 2, 7, 10, 19, 20, 23): o.tiers = ('quick', 'thorough')
+    return o
+_C16 = [_cut(c) for c in range(0, 84)] + [_crash(a) for a in range(OBJFILE_NOPS)]
 _C15 = [_of(0, 'share', 'two ObjectFile instances on one file (two processes): format pin, identical values, a committed change of one is seen by the other at its next access, no lost update')]
-OBLIGATIONS['C05'] += [_C15[0], _of(2, 'fault', 'one failing file operation at every point of ObjectFile::setAttribute: success is only reported when the new value is on the (model) disk')]
+def _sched(n, length=3):
+    digits = ''.join('wr'[(n >> (2 * i)) & 1] + 'LT'[(n >> (2 * i + 1)) & 1] for i in range(length))
+    o = _of(5, 'sched_%d' % n, 'two ObjectFile instances on one file (two processes), schedule %s (w/r = which process writes, L/T = label / token flag, values symbolic): after every committed write both processes see exactly the committed state' % digits)
+    o.defines['SCHED'] = n; o.defines['SCHED_LEN'] = length
+    if n in (6, 9, 27, 36, 57): o.tiers = ('quick', 'thorough')
+    return o
+_C15 += [_sched(n) for n in range(64)]
+_C05F = [_fault(a) for a in range(OBJFILE_NOPS)]
+_C15[0].tiers = ('quick', 'thorough')
+OBLIGATIONS['C05'] += [_C15[0]] + _C05F
 if OBJFILE_TIERS:
     OBLIGATIONS['C16'] = _C16; OBLIGATIONS['C15'] = _C15
 META['C16'] = dict(outside='multi-file calls (object creation + directory entry, C_InitToken mkdir sequence), real kernel / file-system crash semantics (metadata ordering), SQLite; objects of other shapes', assumptions=['crash / durability model of harness/common/vio_model.h: data are durable once flushed, a crash during a flush leaves any prefix, ftruncate is durable at once'])
@@ -285,3 +311,11 @@ UNWRAP_OB = Ob('unwrap_key', 'C09/unwrap_entry.cpp', ENTRY_REAL_NOP11, defines={
     desc='C_UnwrapKey: unwrapping key needs CKA_UNWRAP, fitting type, allowed + advertised mechanism, and the logged-in user when private; new key private only for the user, token only via RW; unwrapped key is not local / never-extractable / always-sensitive and committed in one transaction; a rejected or failed unwrap leaves no object and no handle',
     bounds='mechanism all 2^64 values, parameter <= 48 bytes, wrapped blob <= 16 bytes, template (CLASS, KEY_TYPE [, TOKEN | PRIVATE]); decryption, CreateObject and PKCS#8 import are cuts with symbolic results', timeout=600, mem=30)
 OBLIGATIONS['C09'].append(UNWRAP_OB); OBLIGATIONS['C13'].append(UNWRAP_OB); OBLIGATIONS['C07'].append(UNWRAP_OB)
+
+# ----------------------------------------------------------------------------- deriveSymmetric (C02 / C08 / C13 / C09)
+DERIVE_STUBS = {'_ZN7SoftHSM12CreateObjectEmP13_CK_ATTRIBUTEmPmi': 'sink_create', '_ZN5Token7decryptERK10ByteStringRS0_': 'tag_token_decrypt', '_ZN5Token7encryptERK10ByteStringRS0_': 'det_token_encrypt'}
+DERIVE_OBS = [Ob('derive_' + n, 'C09/derive_entry.cpp', ENTRY_REAL_NOP11 + ['crypto/AESKey.cpp', 'crypto/DESKey.cpp'], defines={'MECH': m, 'BS_CAP': 20 if 'ENCRYPT' in m else 10, 'MODEL_OUT_MAX': 4, 'GENERIC': 1 if 'ENCRYPT' in m else 0}, unwind=22 if 'ENCRYPT' in m else 12, stubs=DERIVE_STUBS, caps='common/entry_caps.h', unwind_rules=[(r'ir_memcpy', 120)],
+    desc='deriveSymmetric(%s): derived key inherits SENSITIVE / non-EXTRACTABLE from the key(s) it contains whatever the template asks, ALWAYS_SENSITIVE / NEVER_EXTRACTABLE / LOCAL tell the truth, value is exactly the concatenation (encrypted when private), a failed derive leaves no object and no handle' % m,
+    bounds='base/second key with symbolic flags and 2-byte values, 2 data bytes, template of 0..2 entries (SENSITIVE, EXTRACTABLE symbolic); CreateObject is a cut', timeout=600, mem=24)
+    for (n, m) in (('base_and_data', 'CKM_CONCATENATE_BASE_AND_DATA'), ('data_and_base', 'CKM_CONCATENATE_DATA_AND_BASE'), ('base_and_key', 'CKM_CONCATENATE_BASE_AND_KEY'), ('aes_ecb_data', 'CKM_AES_ECB_ENCRYPT_DATA'))]
+OBLIGATIONS['C02'] += DERIVE_OBS[:3]; OBLIGATIONS['C08'] += DERIVE_OBS[:1] + DERIVE_OBS[2:]; OBLIGATIONS['C13'] += DERIVE_OBS[:1]; OBLIGATIONS['C09'] += DERIVE_OBS[:1]
